@@ -24,13 +24,13 @@ namespace Bpp.Drive.C06
 open Bpp Bpp.Proto Bpp.EigenGlue
 
 /-! ### constants of the explored bounds (in units of machine epsilon = 2^-52) -/
-def cResidual : Rat := 200    -- ‖(AV − VD)·j‖₁ ≤ c ε ‖A‖₁ (‖v_j‖₁ + ‖v_partner‖₁)
-def cTrace : Rat := 100       -- |Σ d − tr A| ≤ c ε n ‖A‖
-def cDet : Rat := 200         -- |Π blocks − det A| ≤ c ε n ‖A‖ⁿ
-def cOrth : Rat := 100        -- |VᵀV − I|_max ≤ c ε n
-def cCdiv : Rat := 16         -- |q·y − x|₁ ≤ c ε |q|₁ |y|₁
-def cPow : Rat := 400         -- ‖O − A^k‖_max ≤ c ε (k+1) κ² max(‖A‖^k, max|λ|^k), κ = ‖V‖‖W‖
-def cExp : Rat := 400         -- ‖O − Σ A^j/j!‖_max ≤ c ε κ² e^‖A‖
+def cResidual : Rat := 64    -- ‖(AV − VD)·j‖₁ ≤ c ε ‖A‖₁ (‖v_j‖₁ + ‖v_partner‖₁)
+def cTrace : Rat := 32       -- |Σ d − tr A| ≤ c ε n ‖A‖
+def cDet : Rat := 32         -- |Π blocks − det A| ≤ c ε n ‖A‖ⁿ
+def cOrth : Rat := 32        -- |VᵀV − I|_max ≤ c ε n
+def cCdiv : Rat := 8         -- |q·y − x|₁ ≤ c ε |q|₁ |y|₁
+def cPow : Rat := 16         -- ‖O − A^k‖_max ≤ c ε (k+1) κ² max(‖A‖^k, max|λ|^k), κ = ‖V‖‖W‖
+def cExp : Rat := 16         -- ‖O − Σ A^j/j!‖_max ≤ c ε κ² e^‖A‖
 def condGate : Rat := 10000   -- pow/exp are judged only when κ = ‖V‖₁‖W‖₁ ≤ this
 
 def eps : Rat := 1 / (2 ^ 52 : Nat)
